@@ -97,6 +97,9 @@ MEMBERS = {
     # reads a global before binding the same name in the class body (LOAD_NAME falls back to the
     # global even when the enclosing function has a local of that spelling)
     "readbefore": "    GLOB = GLOB + 1\n    PV = PV\n",
+    # zero-argument super() and __class__ used ONLY by lambdas of the class body
+    "lam_super": "    who = lambda self: 'L>' + super().who()\n",
+    "lam_class": "    kind = lambda self: __class__.__name__\n    kind2 = staticmethod(lambda: __class__.__mro__[0].__name__)\n",
     "deco_method": "    @fdeco\n    def dm(self, a=1):\n        return a * 2\n",
 }
 PLACEMENTS = ("module", "func", "cls", "cls_in_func", "global_decl", "closure")
@@ -142,11 +145,13 @@ def inspect_cls(ns):
     except Exception as e:
         out["inst"] = "EXC " + type(e).__name__
         return out
-    for name in ("m", "s", "c", "who", "other", "lm", "useg", "dm"):
+    for name in ("m", "s", "c", "who", "other", "lm", "useg", "dm", "kind", "kind2"):
         for holder, tag in ((inst, "i"), (K, "c")):
             if hasattr(holder, name):
                 args = (1,) if name == "s" else ()
-                if tag == "c" and name in ("m", "who", "other", "lm", "useg", "dm"):
+                if name == "kind2":
+                    args = ()
+                elif tag == "c" and name in ("m", "who", "other", "lm", "useg", "dm", "kind"):
                     args = (inst,) + args
                 try:
                     calls[tag + "_" + name] = canon(getattr(holder, name)(*args))
